@@ -29,6 +29,94 @@ type c18Case struct {
 	Heartbeat bool `json:"heartbeat_during_a_stalled_write,omitempty"`
 	// StopBusy: stop arrives while Listen is in the middle of writing a frame (held back on the wire for 300 ms)
 	StopBusy bool `json:"stop_while_listener_is_writing,omitempty"`
+	// Storm: events pushed back to back (every other one carrying errors), then a stop while they are
+	// still being delivered: what is delivered before the teardown takes effect must be the emitted events,
+	// one by one, each with its own errors
+	Storm int `json:"events_back_to_back_then_stop,omitempty"`
+}
+
+// runStorm: teardown in the middle of a busy stream. The process stays up, frames are whole, the i-th data frame
+// is the i-th emitted event (its own `errors`, nobody else's), the upstream connection gets closed.
+func runStorm(c c18Case) string {
+	w := subWorld(c.WorldSeed)
+	r, err := NewRig(w, RigConfig{Subs: true})
+	if err != nil || r.Merged.Subscription == nil {
+		return "skip: no subscriptions in this world"
+	}
+	defer r.Close()
+	rng := hx.NewRand(c.WorldSeed + 7)
+	cl, err := fake.DialGateway(r.GWSrv.URL)
+	if err != nil {
+		return "cannot connect: " + err.Error()
+	}
+	defer cl.Drop()
+	cl.Send(map[string]interface{}{"type": requests.SubConnectionInit})
+	if f, ok := cl.Next(3 * time.Second); !ok || f.Msg["type"] != requests.SubConnectionAck {
+		return fmt.Sprintf("no connection_ack: %+v", f)
+	}
+	op, field, ok := simpleSubOp(w, r, rng)
+	if !ok {
+		return "skip: no owner"
+	}
+	payload := map[string]interface{}{"query": op.Query}
+	if op.Variables != nil {
+		payload["variables"] = op.Variables
+	}
+	if op.OperationName != "" {
+		payload["operationName"] = op.OperationName
+	}
+	cl.Send(map[string]interface{}{"type": requests.SubStart, "id": "s", "payload": payload})
+	up := r.Ups[w.SubOwner[field]].Accept(3 * time.Second)
+	if up == nil {
+		return "subscription not started upstream: " + op.Query
+	}
+	owner := r.Services[w.SubOwner[field]]
+	data, errs, _ := owner.Answer(up.Start, 0)
+	if errs != nil {
+		return "skip: owner rejects"
+	}
+	go func() {
+		for i := 0; i < c.Storm; i++ {
+			if i%2 == 0 {
+				up.Data(data, []interface{}{map[string]interface{}{"message": fmt.Sprintf("event %d failed in part", i)}})
+			} else {
+				up.Data(data, nil)
+			}
+		}
+	}()
+	seen := 0
+	stopAt := 2 + rng.Intn(c.Storm/2+1)
+	stopped := false
+	for {
+		f, ok := cl.Next(1500 * time.Millisecond)
+		if !ok {
+			break
+		}
+		if f.Err != "" {
+			return "after a stop in the middle of a stream the client reads a frame that is not one JSON message: " + f.Err
+		}
+		if f.Msg == nil || f.Msg["type"] != requests.SubData {
+			continue
+		}
+		pl, _ := f.Msg["payload"].(map[string]interface{})
+		es, _ := pl["errors"].([]interface{})
+		hasErrs := len(es) > 0
+		if wantErrs := seen%2 == 0; hasErrs != wantErrs {
+			return fmt.Sprintf("data frame %d of a busy subscription: the emitted event %d carried errors=%v, the delivered frame carries errors=%v (%s)", seen, seen, wantErrs, hasErrs, shortStr(fake.CanonJSON(pl["errors"]), 160))
+		}
+		seen++
+		if seen == stopAt && !stopped {
+			stopped = true
+			cl.Send(map[string]interface{}{"type": requests.SubStop, "id": "s"})
+		}
+	}
+	if !stopped {
+		cl.Send(map[string]interface{}{"type": requests.SubStop, "id": "s"})
+	}
+	if !up.WaitClosed(3 * time.Second) {
+		return "a stop in the middle of a busy stream never took effect: the upstream connection is still open after 3s"
+	}
+	return ""
 }
 
 // runStopBusy: the stop must still take effect once the write is through: upstream connection closed, goroutines gone
@@ -368,6 +456,9 @@ func driveC18(seed int64, tier, out, replay string) {
 		for i := 0; i < 3*hb; i++ {
 			cases = append(cases, c18Case{WorldSeed: rng.Int63(), Subs: 1, StopBusy: true, Repeat: 1})
 		}
+		for i := 0; i < 3*hb; i++ {
+			cases = append(cases, c18Case{WorldSeed: rng.Int63(), Subs: 1, Storm: 20 + 20*i, Repeat: 1})
+		}
 	}
 	var coq []string
 	for i, c := range cases {
@@ -382,6 +473,9 @@ func driveC18(seed int64, tier, out, replay string) {
 		} else if c.StopBusy {
 			what = runStopBusy(c)
 			obs.Count("stop_while_listener_is_writing")
+		} else if c.Storm > 0 {
+			what = runStorm(c)
+			obs.Count("stop_in_the_middle_of_a_busy_stream")
 		} else {
 			what = runC18(c, obs, &traces)
 		}
